@@ -93,7 +93,7 @@ CHECKS = {
               "DESIGN.md section 4, C16",
               'Decides the decision functions and the clamp guard/reduction, not the byte emission (reaches core::fmt::write) nor min/max/operate_internal. The kept-calculation path of clamp() is cut at verify_length (recorded in evidence). Trusted: Kani/CBMC, the convert / possibly-compatible / inspect_number stubs, the 30-line calc reader in kani/src/c16.rs.',
               'bounded model checking (Kani/CBMC) of calc parenthesisation rules and clamp() against exact rational / table oracles'),
-    "C18": _m("Bounded model checking of the character-level lexer (CR, CRLF and FF lex as exactly one newline token, every other code point as itself) and of the indented syntax's indentation reader (indentation of the next non-blank line, whitespace-only lines ignored, mixed tabs/spaces rejected) for every buffer of 5 (7 thorough) tokens over {space, tab, newline, letter}.",
+    "C18": _m("Bounded model checking of the character-level lexer (CR, CRLF and FF lex as exactly one newline token, every other code point as itself) and of the indented syntax's indentation reader (indentation of the next non-blank line, whitespace-only lines ignored, mixed tabs/spaces rejected) for every buffer of 5 (6 thorough) tokens over {space, tab, newline, letter}.",
               "DESIGN.md section 4, C18",
               'Agreement of the three statement parsers, BOM/@charset, `_`/`-` normalisation are outside. Trusted: Kani/CBMC, RandomState and fmt stubs.',
               'bounded model checking (Kani/CBMC) of TokenLexer::next and SassParser::peek_indentation against reference readers'),
